@@ -645,6 +645,119 @@ impl Engine {
         );
     }
 
+    /// Coverage-guided campaign: run the cargo-fuzz target `target` (whose body
+    /// applies the same oracle) for `runs` executions split over `jobs`
+    /// libFuzzer processes seeded from VERIF_SEED. A crash artifact is turned
+    /// into a case with `make_case`, re-judged by `check` and recorded as a
+    /// violation with a replay file; timeouts / OOM / tool failures are
+    /// inconclusive (exit 2), never violations.
+    pub fn fuzz<C, MK, F>(&self, name: &str, target: &str, runs: u64, make_case: MK, check: F)
+    where
+        C: Serialize + DeserializeOwned + 'static,
+        MK: Fn(&[u8]) -> C,
+        F: Fn(&C, &Obs) -> CheckResult + Sync + Send + Clone + 'static,
+    {
+        self.register_replayer::<C, _>(name, check.clone());
+        if self.replay_only || self.failed() {
+            return;
+        }
+        self.any_campaign.store(true, Ordering::Relaxed);
+        self.all_exhaustive.store(false, Ordering::Relaxed);
+        let t0 = Instant::now();
+        let harness = self.root.join("harness");
+        let seed_corpus = self.root.join("corpus").join(target);
+        let jobs = 8u64;
+        // build once
+        let build = std::process::Command::new("cargo").args(["+nightly", "fuzz", "build", target]).current_dir(&harness).env("CARGO_NET_OFFLINE", "true").output();
+        match build {
+            Ok(o) if o.status.success() => {}
+            Ok(o) => {
+                self.harness_error(format!("fuzz build of {target} failed: {}", String::from_utf8_lossy(&o.stderr).lines().rev().take(5).collect::<Vec<_>>().join(" | ")));
+                return;
+            }
+            Err(e) => {
+                self.harness_error(format!("cannot start cargo fuzz: {e}"));
+                return;
+            }
+        }
+        let mut children = Vec::new();
+        for j in 0..jobs {
+            let work = harness.join("fuzz").join("corpus-work").join(format!("{target}-{j}"));
+            let arts = harness.join("fuzz").join("artifacts").join(format!("{target}-{j}"));
+            let _ = std::fs::remove_dir_all(&work);
+            let _ = std::fs::remove_dir_all(&arts);
+            let _ = std::fs::create_dir_all(&work);
+            let _ = std::fs::create_dir_all(&arts);
+            let seed = (self.seed.wrapping_mul(1000).wrapping_add(j) % 0x7fff_ffff).max(1);
+            let child = std::process::Command::new("cargo")
+                .args(["+nightly", "fuzz", "run", target])
+                .arg(&work)
+                .arg(&seed_corpus)
+                .arg("--")
+                .args([
+                    format!("-runs={}", runs / jobs),
+                    format!("-seed={seed}"),
+                    "-max_len=256".to_string(),
+                    "-len_control=0".to_string(),
+                    "-timeout=20".to_string(),
+                    "-rss_limit_mb=4096".to_string(),
+                    "-print_final_stats=1".to_string(),
+                    format!("-artifact_prefix={}/", arts.display()),
+                ])
+                .current_dir(&harness)
+                .env("CARGO_NET_OFFLINE", "true")
+                .stdout(std::process::Stdio::null())
+                .stderr(std::process::Stdio::piped())
+                .spawn();
+            match child {
+                Ok(c) => children.push((j, arts, c)),
+                Err(e) => self.harness_error(format!("cannot start fuzzer {target}: {e}")),
+            }
+        }
+        let mut executed = 0u64;
+        for (j, arts, child) in children {
+            let out = match child.wait_with_output() {
+                Ok(o) => o,
+                Err(e) => {
+                    self.harness_error(format!("fuzzer {target}-{j}: {e}"));
+                    continue;
+                }
+            };
+            let err = String::from_utf8_lossy(&out.stderr);
+            if let Some(l) = err.lines().find(|l| l.contains("stat::number_of_executed_units:")) {
+                executed += l.rsplit(':').next().and_then(|v| v.trim().parse::<u64>().ok()).unwrap_or(0);
+            }
+            if out.status.success() {
+                continue;
+            }
+            // artifacts
+            let mut found = false;
+            if let Ok(rd) = std::fs::read_dir(&arts) {
+                for ent in rd.flatten() {
+                    let fname = ent.file_name().to_string_lossy().into_owned();
+                    let Ok(bytes) = std::fs::read(ent.path()) else { continue };
+                    found = true;
+                    if fname.starts_with("crash-") {
+                        let case = make_case(&bytes);
+                        let obs = Obs::new();
+                        match guarded(|| check(&case, &obs)) {
+                            Err(f) => self.record_failure(name, f, serde_json::to_value(&case).unwrap_or(Value::Null)),
+                            Ok(()) => self.harness_error(format!("fuzzer {target}-{j} crashed on {fname} but the harness oracle accepts that input; last lines: {}", err.lines().rev().take(6).collect::<Vec<_>>().join(" | "))),
+                        }
+                    } else {
+                        self.harness_error(format!("fuzzer {target}-{j} stopped with {fname} (timeout / out of memory): inconclusive"));
+                    }
+                }
+            }
+            if !found {
+                self.harness_error(format!("fuzzer {target}-{j} failed without artifact: {}", err.lines().rev().take(6).collect::<Vec<_>>().join(" | ")));
+            }
+        }
+        self.evaluations.fetch_add(executed, Ordering::Relaxed);
+        self.campaigns.lock().unwrap().push(CampaignReport { name: name.to_string(), kind: "libfuzzer", evaluations: executed, nontrivial: 0, exhaustive: false, wall_s: t0.elapsed().as_secs_f64() });
+        self.note(format!("libFuzzer target {target}: {executed} executions over {jobs} processes (coverage-guided, seeds derived from VERIF_SEED; non-trivial cases are not counted for fuzz executions)"));
+    }
+
     pub fn label_count(&self, l: &str) -> u64 {
         self.labels.lock().unwrap().get(l).copied().unwrap_or(0)
     }
